@@ -26,30 +26,6 @@ theorem const_maxmsg : Gen.MaxMessageLength = 2048 := by decide
 /-- the close code of a traffic-logger refusal is HTTP/3 "excessive load" -/
 theorem const_closecode : Gen.closeErrCodeTrafficLimitReached = 0x107 := by decide
 
-/-! ### the relay's inputs -/
-
-/-- everything the environment of one relay decides: per direction the source's read
-    results, the logger's verdicts, the sink's write results -/
-structure Scripts where
-  upSrc : List Rd
-  upVerd : List Bool
-  upW : List (Option Nat)
-  downSrc : List Rd
-  downVerd : List Bool
-  downW : List (Option Nat)
-
-/-- io.Reader contract: no Read returns more than the buffer it was given -/
-def Scripts.Contract (sc : Scripts) : Prop :=
-  (∀ r ∈ sc.upSrc, r.data.length ≤ Gen.copyBufSize) ∧ (∀ r ∈ sc.downSrc, r.data.length ≤ Gen.copyBufSize)
-
-def start (sc : Scripts) : St :=
-  St.init (G.init sc.upSrc sc.upVerd sc.upW) (G.init sc.downSrc sc.downVerd sc.downW)
-
-/-- the bytes the source of direction `l` produces -/
-def Scripts.data (sc : Scripts) : Label → Bytes
-  | .down => (sc.downSrc.map (·.data)).flatten
-  | _ => (sc.upSrc.map (·.data)).flatten
-
 /-- whatever a source has available, handing it out through `Read(buf)` meets the
     contract and neither adds, drops nor reorders a byte -/
 theorem deliver_meets_contract (src : List Rd) :
@@ -57,21 +33,6 @@ theorem deliver_meets_contract (src : List Rd) :
     ((deliver Gen.copyBufSize src).map (·.data)).flatten = (src.map (·.data)).flatten :=
   ⟨deliver_bound _ const_copybuf_pos src, deliver_data _ src⟩
 
-theorem reachable (v : Variant) (sc : Scripts) (hc : sc.Contract) (sched : List Label) :
-    RInv Gen.copyBufSize v (run v (start sc) sched) :=
-  run_rinv v sched _ (init_rinv v _ _ (init_inv _ _ _ hc.1) (init_inv _ _ _ hc.2)
-    (init_linv _ _ _) (init_linv _ _ _) rfl rfl)
-
-theorem reachable_dir (v : Variant) (sc : Scripts) (hc : sc.Contract) (sched : List Label) (l : Label) :
-    Inv Gen.copyBufSize ((run v (start sc) sched).dir l) ∧ LInv Gen.copyBufSize ((run v (start sc) sched).dir l) := by
-  have h := reachable v sc hc sched
-  cases l <;> exact ⟨by first | exact h.up | exact h.down, by first | exact h.lup | exact h.ldown⟩
-
-theorem source_of_run (v : Variant) (sc : Scripts) (sched : List Label) (l : Label) :
-    ((run v (start sc) sched).dir l).source = sc.data l := by
-  obtain ⟨h1, h2⟩ := run_source v sched (start sc)
-  cases l <;> simp only [St.dir, Scripts.data] <;> (first | rw [h1] | rw [h2]) <;>
-    simp [start, St.init, G.init, G.source]
 
 /-! ### copy_prefix: what has been forwarded is a prefix of what the source produced —
     nothing injected, duplicated, reordered or altered — per direction, at every point
@@ -162,117 +123,6 @@ theorem veto_forwards_nothing_inv (sc : Scripts) (hc : sc.Contract) (sched : Lis
     scheduled often enough to return (`out ≠ none` — the fairness hypothesis) and nothing
     has been closed up to that point, it has forwarded EVERYTHING, returned nil, and
     logged exactly the forwarded amount. -/
-theorem run_flags_mono (v : Variant) (sched : List Label) (s : St) :
-    (s.targetClosed = true → (run v s sched).targetClosed = true) ∧
-    (s.streamClosed = true → (run v s sched).streamClosed = true) ∧
-    (s.connClosed = true → (run v s sched).connClosed = true) := by
-  induction sched generalizing s with
-  | nil => exact ⟨id, id, id⟩
-  | cons l rest ih =>
-    obtain ⟨a, b, c⟩ := ih (step v s l)
-    have hstep : (s.targetClosed = true → (step v s l).targetClosed = true) ∧
-        (s.streamClosed = true → (step v s l).streamClosed = true) ∧
-        (s.connClosed = true → (step v s l).connClosed = true) := by
-      cases l with
-      | main =>
-        simp only [step, stepMain]
-        split
-        · split <;> simp
-        all_goals simp_all
-      | up =>
-        simp only [step]
-        generalize gstep (s.streamClosed || s.connClosed) s.targetClosed s.up = r
-        cases hr : r.2 with
-        | none => simp [applyEff]
-        | refused => cases v <;> simp [applyEff]
-        | sent o => simp [applyEff]
-      | down =>
-        simp only [step]
-        generalize gstep s.targetClosed (s.streamClosed || s.connClosed) s.down = r
-        cases hr : r.2 with
-        | none => simp [applyEff]
-        | refused => cases v <;> simp [applyEff]
-        | sent o => simp [applyEff]
-    exact ⟨fun h => a (hstep.1 h), fun h => b (hstep.2.1 h), fun h => c (hstep.2.2 h)⟩
-
-theorem run_clean (v : Variant) (sched : List Label) (s : St) (l : Label)
-    (hr : RInv Gen.copyBufSize v s) (hc : Clean (s.dir l))
-    (h1 : (run v s sched).targetClosed = false) (h2 : (run v s sched).streamClosed = false)
-    (h3 : (run v s sched).connClosed = false) : Clean ((run v s sched).dir l) := by
-  induction sched generalizing s with
-  | nil => exact hc
-  | cons x rest ih =>
-    obtain ⟨m1, m2, m3⟩ := run_flags_mono v rest (step v s x)
-    have f1 : (step v s x).targetClosed = false := by
-      cases h : (step v s x).targetClosed with
-      | false => rfl
-      | true => have := m1 h; simp only [run, List.foldl_cons] at h1; simp only [run] at this; rw [this] at h1; cases h1
-    have f2 : (step v s x).streamClosed = false := by
-      cases h : (step v s x).streamClosed with
-      | false => rfl
-      | true => have := m2 h; simp only [run, List.foldl_cons] at h2; simp only [run] at this; rw [this] at h2; cases h2
-    have f3 : (step v s x).connClosed = false := by
-      cases h : (step v s x).connClosed with
-      | false => rfl
-      | true => have := m3 h; simp only [run, List.foldl_cons] at h3; simp only [run] at this; rw [this] at h3; cases h3
-    obtain ⟨n1, n2, n3⟩ := run_flags_mono v [x] s
-    have g1 : s.targetClosed = false := by
-      cases h : s.targetClosed with
-      | false => rfl
-      | true => have := n1 h; simp only [run, List.foldl_cons, List.foldl_nil] at this; rw [this] at f1; cases f1
-    have g2 : s.streamClosed = false := by
-      cases h : s.streamClosed with
-      | false => rfl
-      | true => have := n2 h; simp only [run, List.foldl_cons, List.foldl_nil] at this; rw [this] at f2; cases f2
-    have g3 : s.connClosed = false := by
-      cases h : s.connClosed with
-      | false => rfl
-      | true => have := n3 h; simp only [run, List.foldl_cons, List.foldl_nil] at this; rw [this] at f3; cases f3
-    apply ih (step v s x) (step_rinv v s x hr) _ h1 h2 h3
-    -- one step keeps the direction clean
-    cases x with
-    | main =>
-      obtain ⟨a, b, _⟩ := stepMain_dirs s
-      cases l <;> simp only [St.dir, step] at hc ⊢ <;> (first | (rw [a]; exact hc) | (rw [b]; exact hc))
-    | up =>
-      simp only [step]
-      obtain ⟨a, b, _⟩ := applyEff_dirs v
-        { s with up := (gstep (s.streamClosed || s.connClosed) s.targetClosed s.up).1 }
-        (gstep (s.streamClosed || s.connClosed) s.targetClosed s.up).2
-      cases l with
-      | down => simp only [St.dir] at hc ⊢; rw [b]; exact hc
-      | up =>
-        simp only [St.dir] at hc ⊢; rw [a]
-        simp only [g1, g2, g3, Bool.or_self]
-        exact gnext_clean s.up hr.up hc
-      | main =>
-        simp only [St.dir] at hc ⊢; rw [a]
-        simp only [g1, g2, g3, Bool.or_self]
-        exact gnext_clean s.up hr.up hc
-    | down =>
-      simp only [step]
-      obtain ⟨a, b, _⟩ := applyEff_dirs v
-        { s with down := (gstep s.targetClosed (s.streamClosed || s.connClosed) s.down).1 }
-        (gstep s.targetClosed (s.streamClosed || s.connClosed) s.down).2
-      cases l with
-      | up => simp only [St.dir] at hc ⊢; rw [a]; exact hc
-      | main => simp only [St.dir] at hc ⊢; rw [a]; exact hc
-      | down =>
-        simp only [St.dir] at hc ⊢; rw [b]
-        simp only [g1, g2, g3, Bool.or_self]
-        exact gnext_clean s.down hr.down hc
-
-/-- the three script components of direction `l` -/
-def Scripts.src (sc : Scripts) : Label → List Rd
-  | .down => sc.downSrc
-  | _ => sc.upSrc
-def Scripts.verd (sc : Scripts) : Label → List Bool
-  | .down => sc.downVerd
-  | _ => sc.upVerd
-def Scripts.wres (sc : Scripts) : Label → List (Option Nat)
-  | .down => sc.downW
-  | _ => sc.upW
-
 theorem complete_if_no_early_close_partial (v : Variant) (sc : Scripts) (hc : sc.Contract)
     (sched : List Label) (l : Label)
     (hsrc : CleanSrc (sc.src l)) (hverd : ∀ b ∈ sc.verd l, b = true) (hw : ∀ w ∈ sc.wres l, w = none) :
@@ -335,58 +185,6 @@ theorem copyLoop_complete (src : List Rd) (verd : List Bool) (wres : List (Optio
 /-! ### teardown: handleTCPRequest closes nothing before copyTwoWayEx has returned a
     result, and when it is through both ends are closed — and the connection too if the
     returned result was errDisconnect. -/
-def MainOk (s : St) : Prop :=
-  match s.mpc with
-  | .recv => s.targetClosed = false ∧ s.streamClosed = false ∧ s.ret = none
-  | .closeTarget => s.ret ≠ none ∧ s.streamClosed = false
-  | .closeStream => s.ret ≠ none ∧ s.targetClosed = true
-  | .closeConn => s.ret = some .disconnect ∧ s.targetClosed = true ∧ s.streamClosed = true
-  | .done => s.ret ≠ none ∧ s.targetClosed = true ∧ s.streamClosed = true ∧
-      (s.ret = some .disconnect → s.connClosed = true)
-
-theorem step_mainOk (v : Variant) (s : St) (l : Label) (h : MainOk s) : MainOk (step v s l) := by
-  cases l with
-  | main =>
-    simp only [step, stepMain]
-    cases hm : s.mpc with
-    | recv =>
-      simp only [MainOk, hm] at h
-      cases hch : s.chan with
-      | nil => simpa [MainOk, hm] using h
-      | cons o rest => simp [MainOk, h.2.1]
-    | closeTarget => simp only [MainOk, hm] at h; simp [MainOk, h.1]
-    | closeStream =>
-      simp only [MainOk, hm] at h
-      by_cases hd : s.ret = some .disconnect
-      · simp [MainOk, hd, h.2]
-      · simp [MainOk, hd, h.1, h.2]
-    | closeConn => simp only [MainOk, hm] at h; simp [MainOk, h.1, h.2.1, h.2.2]
-    | done => simpa [MainOk, hm] using h
-  | up =>
-    simp only [step]
-    generalize gstep (s.streamClosed || s.connClosed) s.targetClosed s.up = r
-    cases hr : r.2 with
-    | none => simpa [applyEff, MainOk] using h
-    | sent o => simpa [applyEff, MainOk] using h
-    | refused =>
-      cases v with
-      | pinned => simpa [applyEff, MainOk] using h
-      | fixed =>
-        simp only [applyEff, MainOk] at h ⊢
-        cases hm : s.mpc <;> simp only [hm] at h ⊢ <;> simp_all
-  | down =>
-    simp only [step]
-    generalize gstep s.targetClosed (s.streamClosed || s.connClosed) s.down = r
-    cases hr : r.2 with
-    | none => simpa [applyEff, MainOk] using h
-    | sent o => simpa [applyEff, MainOk] using h
-    | refused =>
-      cases v with
-      | pinned => simpa [applyEff, MainOk] using h
-      | fixed =>
-        simp only [applyEff, MainOk] at h ⊢
-        cases hm : s.mpc <;> simp only [hm] at h ⊢ <;> simp_all
-
 theorem relay_teardown (v : Variant) (sc : Scripts) (sched : List Label) :
     let s := run v (start sc) sched
     ((s.targetClosed = true ∨ s.streamClosed = true) → s.ret ≠ none) ∧
@@ -414,10 +212,11 @@ theorem relay_teardown (v : Variant) (sc : Scripts) (sched : List Label) :
 
 /-! ### the relations the loopback trace validation checks are consequences of the model:
     whatever state a relay is in, what an observer of a direction sees passes
-    `Obs.check`; with nothing in flight it passes the exact form. -/
+    `Obs.check` in modes 0 and 1; with nothing in flight it passes the exact mode 2. -/
 theorem obs_check_sound (v : Variant) (sc : Scripts) (hc : sc.Contract) (sched : List Label) (l : Label) :
     let g := (run v (start sc) sched).dir l
-    g.obs.check Gen.copyBufSize false = none ∧ (g.inflight = 0 → g.obs.check Gen.copyBufSize true = none) := by
+    g.obs.check Gen.copyBufSize 0 = none ∧ g.obs.check Gen.copyBufSize 1 = none ∧
+    (g.inflight = 0 → g.obs.check Gen.copyBufSize 2 = none) := by
   obtain ⟨hi, hl⟩ := reachable_dir v sc hc sched l
   exact obs_check_of_inv hi hl
 
@@ -448,6 +247,16 @@ theorem dial_error_delivered (s pad rest : Bytes) (cs : List Bytes)
     | proto st => rw [hx] at hrt; simp [Frame.Rd.map] at hrt
   · intro hle; unfold boundMsg; exact List.take_of_length_le hle
   · unfold boundMsg; exact List.take_prefix _ _
+
+/-- the same at the two call sites: without fast open `TCP()` itself returns the DialError;
+    with fast open `TCP()` returns a conn and its first `Read` returns the DialError. -/
+theorem dial_error_delivered_calls (s pad rest : Bytes) (cs : List Bytes)
+    (hp : pad.length < Gen.tcpResponsePaddingMax)
+    (hcs : cs.flatten = (serverRespond .fixed (some s) pad).1 ++ rest) :
+    clientTCP false cs = .dialError (boundMsg s) ∧
+    clientTCP true cs = .conn ∧ clientFirstRead cs = .dialError (boundMsg s) := by
+  have h := (dial_error_delivered s pad rest cs hp hcs).1
+  simp [clientTCP, clientFirstRead, h]
 
 /-- and when the dial succeeds the client consumes exactly the response and what its Reads
     deliver afterwards is exactly what the relay wrote — with fast open too (a client
@@ -495,6 +304,15 @@ theorem d5_pinned_counterexample (s pad rest : Bytes) (cs : List Bytes)
   | eof => rw [hx] at hflat; simp [Frame.Rd.map] at hflat
   | proto st => rfl
 
+/-- at the call sites: eager `TCP()` reports a closed connection, the fast-open Read a
+    protocol error — neither is a DialError -/
+theorem d5_pinned_counterexample_calls (s pad rest : Bytes) (cs : List Bytes)
+    (h1 : 2048 < s.length) (h2 : s.length ≤ 16383)
+    (hcs : cs.flatten = (serverRespond .pinned (some s) pad).1 ++ rest) :
+    clientTCP false cs = .closedError ∧ clientFirstRead cs = .error true := by
+  have h := d5_pinned_counterexample s pad rest cs h1 h2 hcs
+  simp [clientTCP, clientFirstRead, h]
+
 /-- D11 scripts: the client→target direction ends at once (EOF); the target has one byte
     for the client, which the logger refuses. -/
 def d11Scripts : Scripts :=
@@ -529,6 +347,24 @@ example : (copyLoop [⟨[byte 1, byte 2], none⟩, ⟨[], none⟩, ⟨[byte 3], 
     [[byte 1, byte 2], [byte 3]] ∧
     (copyLoop [⟨[byte 1, byte 2], none⟩, ⟨[], none⟩, ⟨[byte 3], some true⟩] [] []).out = some .done := by decide
 
+/-- a run that meets the hypotheses of `complete_if_no_early_close_partial`: the down
+    direction (last byte together with EOF) has returned and nothing is closed yet -/
+def cleanEx : Scripts :=
+  { upSrc := [⟨[byte 5], none⟩], upVerd := [], upW := [],
+    downSrc := [⟨[byte 1], some true⟩], downVerd := [], downW := [] }
+
+example : (run .fixed (start cleanEx) [.down, .up, .down, .down]).targetClosed = false ∧
+    (run .fixed (start cleanEx) [.down, .up, .down, .down]).streamClosed = false ∧
+    (run .fixed (start cleanEx) [.down, .up, .down, .down]).connClosed = false ∧
+    ((run .fixed (start cleanEx) [.down, .up, .down, .down]).dir .down).out ≠ none := by decide
+
+example : CleanSrc (cleanEx.src .down) := by simp [cleanEx, Scripts.src, CleanSrc]
+
+/-- hypotheses of `dial_error_delivered`: a padding the writer can draw, a chunking -/
+example : ([byte 0, byte 0] : Bytes).length < Gen.tcpResponsePaddingMax ∧
+    ([[byte 1], [], (serverRespond .fixed (some [byte 110]) [byte 0, byte 0]).1.drop 1 ++ [byte 9]] : List Bytes).flatten =
+      (serverRespond .fixed (some [byte 110]) [byte 0, byte 0]).1 ++ [byte 9] := by decide
+
 /-- a reachable state that meets the hypotheses of `veto_forwards_nothing` -/
 example : ((run .fixed (start d11Scripts) [.down]).dir .down).pc = .log [byte 1] none ∧
     headV ((run .fixed (start d11Scripts) [.down]).dir .down).verd = false := by decide
@@ -538,6 +374,10 @@ example : (copyLoop [⟨[byte 7, byte 8, byte 9], none⟩] [true] [some 2]).writ
     (copyLoop [⟨[byte 7, byte 8, byte 9], none⟩] [true] [some 2]).logged = 3 ∧
     (copyLoop [⟨[byte 7, byte 8, byte 9], none⟩] [true] [some 2]).inflight = 1 ∧
     (copyLoop [⟨[byte 7, byte 8, byte 9], none⟩] [true] [some 2]).out = some .writeErr := by decide
+
+/-- hypotheses of `d5_pinned_counterexample`: an error text one byte over the limit -/
+example : 2048 < (List.replicate 2049 (byte 97)).length ∧ (List.replicate 2049 (byte 97)).length ≤ 16383 := by
+  rw [List.length_replicate]; decide
 
 /-- a dial error text that needs the bound, and one that does not -/
 example : (boundMsg (List.replicate 2100 (byte 97))).length = 2048 := by
